@@ -105,6 +105,8 @@ def run(tier):
                 ncase += 1
                 if src is not None and lit not in src:
                     nbad += 1
+                    if nbad > 3:
+                        continue
                     rep.violation("user-literal-not-verbatim", {"what": "a string literal spanning lines in user code does not reach the generated file verbatim (comments=%s, no-whitespace=%s, report=%s)" % k,
                                   "grammar": name, "grammar_text": text, "literal": lit})
         bt = rstok.tokens(base)
